@@ -460,7 +460,10 @@ func slicesEqual(x, y any) (err error) {
 
 		// Get primitives out of the way
 		var tried bool
-		if tried, err = primitivesEqual(xv, yv); tried {
+		if tried, err = primitivesEqual(xv, yv); tried || err != nil {
+			// err != nil without tried: a nil pointer element
+			// (invalid reflect.Value); report it, do not hand
+			// the zero Value to valuesEqual/assertReflect.
 			continue
 		}
 
